@@ -5,6 +5,17 @@ pid = sys.argv[1]
 n = sys.argv[2] if len(sys.argv) > 2 else "1"
 wt = "/tmp/seed_%s" % pid if n == "1" else "/tmp/seed_%s_%s" % (pid, n)
 p = [json.loads(l) for l in open('/verif/properties.jsonl') if json.loads(l)['id'] == pid][0]
+import glob
+known = []
+for f in sorted(glob.glob('/verif/seeded/%s-*/meta.json' % pid)):
+    try:
+        known.append(json.load(open(f))['change'])
+    except Exception:
+        pass
+exclude = ''
+if known and n != "1":
+    exclude = "\n\nOther people have already proposed the following changes for this property; yours must be a DIFFERENT one (different code site or different mechanism):\n" + "\n".join("  - " + k for k in known) + "\n"
+
 print(f"""You are helping to evaluate a verification tool. Work ONLY inside the git worktree {wt} (a checkout of the qxmpp C++/Qt5 library, an XMPP client/server library). Do not read or write anything under /verif or /repo, and do not look at other /tmp/seed_* directories.
 
 Here is a semantic property that the library is supposed to satisfy:
@@ -18,7 +29,7 @@ Your task: produce ONE realistic change (a plausible bug a developer could intro
   (a) the library and its test suite still compile, and
   (b) the existing test suite still passes (the same tests pass as before your change; tst_qxmppiceconnection fails and tst_qxmppserver is flaky even without any change — ignore those two).
 
-The change must need something SPECIFIC to manifest — a particular interleaving or ordering of events, a connection loss / fault at a particular point, a multi-step sequence of operations, an unusual but legal input, or two cooperating sites that each look fine alone. It must NOT be something any ordinary use would expose at once (e.g. not "every login fails"). Keep it small (a few lines), in the files relevant to the property, and do not add comments that give it away.
+The change must need something SPECIFIC to manifest — a particular interleaving or ordering of events, a connection loss / fault at a particular point, a multi-step sequence of operations, an unusual but legal input, or two cooperating sites that each look fine alone. It must NOT be something any ordinary use would expose at once (e.g. not "every login fails"). Keep it small (a few lines), in the files relevant to the property, and do not add comments that give it away.{exclude}
 
 How to build and test inside the worktree (no network is available; everything needed is installed):
   cd {wt} && cmake -G Ninja -B _build -DBUILD_TESTS=ON -DBUILD_INTERNAL_TESTS=ON -DBUILD_EXAMPLES=OFF -DCMAKE_BUILD_TYPE=RelWithDebInfo >/dev/null && cmake --build _build -j8
